@@ -32,8 +32,9 @@ OPEN_STATEMENTS = [
     'bk_interaction_sound (the InteractionOperator path, cases A-D, equals the FermionOperator path, also for '
     'n_qubits above the tensor size): NOT proved; correspondence + Spec oracle against the tensor formula + exact '
     'comparison with bravyi_kitaev(get_fermion_operator(.), n_qubits)',
-    'CAR / diagonal number operators / vacuum / isospectrality with JW are consequences of bk_term_exact + '
-    'bk_enc_injective in the Spec semantics (Spec CAR lemmas live with C01/C07); not restated here',
+    'isospectrality with Jordan-Wigner / preservation of expectation values are not restated: they follow from bk_exact / '
+    'tree_exact + injectivity of enc (the transformed operator is JW conjugated by the relabelling enc); CAR, diagonal '
+    'number operators and the vacuum ARE theorems (bk_car, bk_car_ann, bk_number_diagonal, bk_vacuum, tree_car)',
 ]
 
 
